@@ -126,17 +126,19 @@ func allMenus() map[string][]snip {
 	m["id"] = []snip{mk("/n/1", eID(idN1)), mk("/n/99(absent)", eID(idN99)), mk("/w/10", eID(idW10)), mk("/a/13", eID(idA13)),
 		mk("/r/20", eID(idR20)), mk("collection-id", eID(idC1)), mk("expression-id", eID(idE2)), mk("invalid-id", eID(idBad)),
 		mkT("/a/99(absent)", eID(idA99)), mkT("/r/99(absent)", eID(idR99)), mkT("collection-id(absent)", eID(idC99)), mkT("new-point-id", eID(idNewP))}
-	m["feature"] = []snip{mk("(find-feature /n/5)", ffN5), mk("(find-feature /n/99)", call("find-feature", eID(idN99))),
+	m["feature"] = []snip{mk("(find-feature /n/5)", ffN5), mk("(find-area /a/99(absent))", call("find-area", eID(idA99))),
+		mk("(find-feature /n/99)", call("find-feature", eID(idN99))),
 		mk("(find-feature /w/10)", ffW10), mk("(find-area /a/13)", faA13), mk("(find-relation /r/20)", call("find-relation", eID(idR20))),
 		mk("(find-collection cid)", call("find-collection", eID(idC1))),
 		mkT("(find-feature expression-id)", call("find-feature", eID(idE2))), mkT("(find-feature /w/13)", call("find-feature", eID(idW13))),
-		mkT("(find-feature /n/7)", call("find-feature", eID(idN7)))}
+		mkT("(find-feature /n/7)", call("find-feature", eID(idN7))), mkT("(find-relation /r/99(absent))", call("find-relation", eID(idR99))),
+		mkT("(find-collection cid(absent))", call("find-collection", eID(idC99)))}
 	m["geometry"] = []snip{mk("(ll 51.5002 -0.0995)", llIn), mk("path-literal(0 points)", ePath()),
 		mk("(find-feature /w/10)", ffW10), mk("(find-area /a/13)", faA13), mk("(find-feature /n/5)", ffN5),
 		mk("path-literal(2 points)", ePath(51.5, -0.1, 51.5004, -0.0986)), mk("point-literal", eLL(51.5004, -0.0993)),
-		mkT("path-literal(1 point)", ePath(51.5, -0.1)), mkT("area-literal(0 polygons)", eArea()),
+		mkT("path-literal(1 point)", ePath(51.5, -0.1)), mkT("area-literal(0 polygons)", eArea()), mkT("(find-area /a/99(absent))", call("find-area", eID(idA99))),
 		mkT("(ll 91.0 181.0)", call("ll", eF(91), eF(181))), mkT("(ll NaN NaN)", call("ll", eF(math.NaN()), eF(math.NaN())))}
-	m["area"] = []snip{mk("(find-area /a/13)", faA13), mk("area-literal(0 polygons)", eArea()),
+	m["area"] = []snip{mk("(find-area /a/13)", faA13), mk("area-literal(0 polygons)", eArea()), mk("(find-area /a/99(absent))", call("find-area", eID(idA99))),
 		mk("area-literal(square)", eArea(squarePg)), mk("(cap-polygon ll 10.0)", call("cap-polygon", llIn, eF(10))),
 		mkT("area-literal(polygon without loops)", eArea(s2.PolygonFromLoops(nil))), mkT("area-literal(full polygon)", eArea(s2.FullPolygon()))}
 	m["query"] = []snip{mk("[#highway]", eQ(qHighway)), mk("intersection()", eQ(b6.Intersection{})), mk("[#amenity=cafe]", eQ(qAmenity)),
@@ -166,7 +168,8 @@ func allMenus() map[string][]snip {
 		mkT("{0: (add-tag /n/5 k=v)}", call("collection", call("pair", eI(0), addTagN5))), mkT(`{/n/1: "name"}`, eColl(idN1, "name")),
 		mkT("(find-collection cid)", call("find-collection", eID(idC1))), mkT("(take ints -2)", call("take", ints, eI(-2))),
 		mkT("(map ints first)", call("map", ints, sym("first"))), mkT("(filter ints {x -> 1})", call("filter", ints, lamConst)),
-		mkT("{/w/10: (find-feature /w/10)}", call("collection", call("pair", eID(idW10), ffW10)))}
+		mkT("{/w/10: (find-feature /w/10)}", call("collection", call("pair", eID(idW10), ffW10))),
+		mkT("(find-collection cid(absent))", call("find-collection", eID(idC99)))}
 	m["change"] = []snip{mk("(add-tag /n/5 k=v)", addTagN5), mk("(add-tag /n/99 k=v)", call("add-tag", eID(idN99), eT("k", "v"))),
 		mk("(merge-changes {})", call("merge-changes", empty)), mk(`(remove-tag /n/5 "name")`, call("remove-tag", eID(idN5), eS("name"))),
 		mkT("(add-point ll new-id {})", call("add-point", llIn, eID(idNewP), empty)),
